@@ -79,6 +79,7 @@ fn main() {
                 let res = std::panic::catch_unwind(std::panic::AssertUnwindSafe(|| match m.as_str() {
                     "ost" => run_paused(ost::run_scenario(&sc)),
                     "link" => run_paused(linkmode::run_link(&sc)),
+                    "transport" => run_paused(linkmode::run_transport(&sc)),
                     _ => {
                         eprintln!("unknown mode {m}");
                         std::process::exit(2);
